@@ -15,7 +15,9 @@ header text (spaces, tabs, non-ASCII) fits on one space-separated line.
   cmp <presented> <expected>              -> 0 | 1     (comparison of the run: equality patched by obs)
   hval <tc|ws> <name> <value> ...         -> absent | some <str>   (header lines -> value the decorator sees)
   reqh <idx> <method> <tc|ws> <file> <name> <value> ...   -> view | <status>
-The dispatch is `handleW (cmpOf obs)`; without `obs` lines that is `handle`.
+  mobs <method> <0|1>                     -> ok        (wave 6: the wrapper let a refused credential through for this method)
+The dispatch is `handleW (cmpOf obs)` (`handleM mobs` for a method the wrapper was observed to let through);
+without `obs` / `mobs` lines that is `handle`.
 -/
 open Bptk.C15
 
@@ -36,6 +38,7 @@ structure St where
   table : Table := { routes := [], staticFiles := [] }
   tok : Option (List Char) := none
   obs : Obs := []
+  mobs : MethodObs := []
 
 def decTransport (s : String) : Option Transport :=
   if s == "tc" then some testClient else if s == "ws" then some wsgiServer else none
@@ -79,10 +82,14 @@ def stepLine (st : St) (line : String) : St × String :=
       | _, _ => (st, "bad-op")
   | ["req", i, m, a, f] => match i.toNat?, decAuth a, decStr f with
       | some i, some a, some f =>
-        let (s', status) := handleW (cmpOf st.obs) markView st.table st.tok 0
-          { route := i, method := m, auth := a, file := String.ofList f, payload := () }
+        let r : Request Unit := { route := i, method := m, auth := a, file := String.ofList f, payload := () }
+        let (s', status) := if skipOf st.mobs m then handleM st.mobs markView st.table st.tok 0 r
+                            else handleW (cmpOf st.obs) markView st.table st.tok 0 r
         (st, if s' != 0 then "view" else toString status)
       | _, _, _ => (st, "bad-op")
+  | ["mobs", m, v] => match flag v with
+      | some v => ({ st with mobs := st.mobs ++ [(m, v)] }, "ok")
+      | none => (st, "bad-op")
   | ["obs", p, e, v] => match decStr p, decStr e, flag v with
       | some p, some e, some v => ({ st with obs := st.obs ++ [(p, e, v)] }, "ok")
       | _, _, _ => (st, "bad-op")
@@ -94,8 +101,9 @@ def stepLine (st : St) (line : String) : St × String :=
       | _, _ => (st, "bad-op")
   | "reqh" :: i :: m :: tr :: f :: rest => match i.toNat?, decTransport tr, decStr f, decPairs rest with
       | some i, some tr, some f, some raw =>
-        let (s', status) := handleW (cmpOf st.obs) markView st.table st.tok 0
-          { route := i, method := m, auth := headerValue tr raw, file := String.ofList f, payload := () }
+        let r : Request Unit := { route := i, method := m, auth := headerValue tr raw, file := String.ofList f, payload := () }
+        let (s', status) := if skipOf st.mobs m then handleM st.mobs markView st.table st.tok 0 r
+                            else handleW (cmpOf st.obs) markView st.table st.tok 0 r
         (st, if s' != 0 then "view" else toString status)
       | _, _, _, _ => (st, "bad-op")
   | _ => (st, "bad-op")
